@@ -247,6 +247,11 @@ def ensure_material(w, s, before, keys, owned, vle=True, tag=''):
 
 # --------------------------------------------------------------------------- VLE stubs
 
+class _FArgs:
+    f = None
+    args = ()
+
+
 def install_vle_stubs(env, real_refresh_K=False, real_solve_v=True):
     """
     Havoc every numerical dependency of thermosteam.equilibrium.vle (assumed contracts, DESIGN 2.6):
@@ -266,7 +271,7 @@ def install_vle_stubs(env, real_refresh_K=False, real_solve_v=True):
             n = len(self.chemicals)
             self.Psats = [(lambda T: 1e5) for _ in range(n)]      # consumed by the havoc'ed fixed-point solver only
             self.pcf = lambda T, P, Psats: 1.0
-            self.gamma = self.phi = None
+            self.gamma = self.phi = _FArgs()
             self.Tmin = env.pos('Tmin'); self.Tmax = env.pos('Tmax')
             self.Pmin = env.pos('Pmin'); self.Pmax = env.pos('Pmax')
 
@@ -322,6 +327,17 @@ def install_vle_stubs(env, real_refresh_K=False, real_solve_v=True):
         self._v = v = env.arr(vs)
         return v
 
+    def solve_vle_vapor_mol_shgo(z, T, f_gamma, gamma_args, P, pcf_Psats, f_phi, phi_args, shgo_options):
+        # A-opt: scipy's shgo returns a point inside the bounds it is given, here [0, z_i]
+        env.count('shgo')
+        out = []
+        for i in range(len(z)):
+            x = env.leaf(f'shgo_x{i}', lo=0.)
+            w.assume(w.le(x, z[i]))
+            out.append(x)
+        return env.arr(out)
+
+    env.patch(vle_mod, 'solve_vle_vapor_mol_shgo', solve_vle_vapor_mol_shgo)
     env.patch(vle_mod, 'BubblePoint', StubBubblePoint)
     env.patch(vle_mod, 'DewPoint', StubDewPoint)
     env.patch(vle_mod, 'flx', StubFlx())
@@ -399,7 +415,8 @@ VLE_QUICK = {
     'TP': [('W', {'W': '??'}, {}), ('WE', {'W': '+?', 'E': '?+'}, {}), ('WN', {'W': '+?', 'N': '?+'}, {}),
            ('WX', {'W': '?+', 'X': '+?'}, {}), ('WG', {'W': '++', 'G': '?+'}, {}), ('NX', {'N': '+0', 'X': '0+'}, {}),
            ('WEN', {'W': '+0', 'E': '0+', 'N': '+?'}, {}), ('WEX', {'W': '+?', 'E': '+0', 'X': '0+'}, {}),
-           ('WES', {'W': '++', 'E': '+0', 'S': '?+'}, {})],
+           ('WES', {'W': '++', 'E': '+0', 'S': '?+'}, {}),
+           ('WN', {'W': '+?+', 'N': '?+0'}, {'phases': 'gls'})],          # a solid phase that VLE does not own: frame
     'TV': [('W', {'W': '??'}, {}), ('WE', {'W': '+0', 'E': '++'}, dict(_C, k=1)), ('WN', {'W': '+?', 'N': '0+'}, dict(_C, k=1)),
            ('WEX', {'W': '+0', 'E': '0+', 'X': '+0'}, dict(_CI, k=1)), ('NX', {'N': '+0', 'X': '0+'}, {}),
            ('WE', {'W': '+0', 'E': '0+'}, {'k': 0})],
@@ -446,7 +463,7 @@ def vle_configs(spec):
         for keys, dist, opts in fam:
             o = dict({'k': 1, 'solve_v': 'real', 'vmode': 'any', 'refresh_K': False}, **opts)
             nm = f"{keys}/{_dist_name(dist, keys)}/k={o['k']}/solve_v={o['solve_v']}" + ('-int' if o['vmode'] == 'int' else '') \
-                 + ('/refresh_K' if o['refresh_K'] else '')
+                 + ('/refresh_K' if o['refresh_K'] else '') + (f"/phases={o['phases']}" if 'phases' in o else '')
             out.append(dict(o, name=nm, pkg=keys, dist=dist))
         return out
     return configs
@@ -478,16 +495,19 @@ for _spec in SPECS:
 # --------------------------------------------------------------------------- loop-free helpers: clip in _solve_v + set_flows
 
 def clip_configs(tier):
-    fam = [('WE', {'W': '+?', 'E': '?+'}), ('WEN', {'W': '+0', 'E': '0+', 'N': '?+'}), ('WX', {'W': '++', 'X': '+0'})]
+    fam = [('WE', {'W': '+?', 'E': '?+'}, 'fixed-point'), ('WEN', {'W': '+0', 'E': '0+', 'N': '?+'}, 'fixed-point'),
+           ('WX', {'W': '++', 'X': '+0'}, 'fixed-point'), ('WE', {'W': '+?', 'E': '?+'}, 'shgo')]
     if tier == 'thorough':
-        fam += [('WEM', {'W': '+?', 'E': '?+', 'M': '++'}), ('WENX', {k: '??' for k in 'WENX'})]
-    return [{'name': f'{keys}/{_dist_name(d, keys)}', 'pkg': keys, 'dist': d} for keys, d in fam]
+        fam += [('WEM', {'W': '+?', 'E': '?+', 'M': '++'}, 'fixed-point'), ('WENX', {k: '??' for k in 'WENX'}, 'fixed-point'),
+                ('WEN', {'W': '??', 'E': '??', 'N': '?+'}, 'shgo')]
+    return [{'name': f'{keys}/{_dist_name(d, keys)}/{m}', 'pkg': keys, 'dist': d, 'method': m} for keys, d, m in fam]
 
 
 @group('C03/solve_v_clip', configs=clip_configs, loop_free=True,
        functions=['thermosteam.equilibrium.vle:VLE._solve_v', 'thermosteam.equilibrium.vle:set_flows',
                   'thermosteam.equilibrium.vle:VLE._setup'],
-       assumptions=['A-fixed-point: VLE._solve_v_fixed_point returns an arbitrary real vector'])
+       assumptions=['A-fixed-point: VLE._solve_v_fixed_point returns an arbitrary real vector',
+                    'A-opt: solve_vle_vapor_mol_shgo returns a point inside its bounds [0, z]'])
 def solve_v_clip(w, cfg):
     """Contract of VLE._solve_v used by the iterative groups: 0 <= v <= mol_vle, flows untouched; then set_flows conserves."""
     W.reset_caches()
@@ -498,6 +518,7 @@ def solve_v_clip(w, cfg):
         th = havoc_thermo(env, keys)
         s, before = multistream(w, 'f', th, 'gl', cfg['dist'], keys)
         vle = s.vle
+        vle.method = cfg.get('method', 'fixed-point')
         try:
             vle._setup()
         except NoEquilibrium:
@@ -978,7 +999,7 @@ def bounded_configs(tier):
                         'flows': _b_flows(rnd, keys, 'gl', 1.0 if xy else 0.8), 'vals': vals})
     for n in range(n_lle):
         keys = ['WO', 'WEO', 'WEG', 'WEN'][n % 4]
-        out.append({'name': f'lle/{keys}/{n}', 'kind': 'lle', 'pkg': keys, 'flows': _b_flows(rnd, keys, 'lL'),
+        out.append({'name': f'lle/{keys}/{n}', 'kind': 'lle', 'pkg': keys, 'flows': _b_flows(rnd, keys, 'lL', 1.0 if n % 8 < 6 else 0.7),
                     'vals': {'T': rnd.uniform(280., 370.), 'P': 101325.}, 'top': rnd.choice([None, 'Water', 'Octane']), 'calls': 1 + n % 2})
     for n in range(n_sle):
         keys = ['WT', 'MT', 'WMT'][n % 3]
@@ -987,8 +1008,8 @@ def bounded_configs(tier):
                     'call': ['T', 'H', 'Tx', 'Hx'][(n // 3) % 4]})
     for n in range(n_vlle):
         keys = ['WEO', 'WO', 'WEN'][n % 3]
-        out.append({'name': f'vlle/{keys}/{n}', 'kind': 'vlle', 'pkg': keys, 'flows': _b_flows(rnd, keys, 'Lgl'),
-                    'vals': {'T': rnd.uniform(300., 400.), 'P': 10 ** rnd.uniform(4.5, 5.5)}})
+        out.append({'name': f'vlle/{keys}/{n}', 'kind': 'vlle', 'pkg': keys, 'flows': _b_flows(rnd, keys, 'Lgl', 1.0),
+                    'vals': {'T': rnd.uniform(300., 365.), 'P': 101325. * rnd.choice([0.5, 1., 1., 2.])}})
     return out
 
 
@@ -1062,6 +1083,10 @@ def bounded_real_solvers(w, cfg):
             s.vlle(v['T'], v['P'])
             owned = ('L', 'g', 'l')
     except Exception as e:       # the property speaks about calls that return normally
+        if isinstance(e, ReferenceError) and not cfg.get('_retried'):
+            # numba's on-disk cache occasionally fails while SAVING a freshly compiled kernel (environment, not thermosteam);
+            # the kernel is compiled now, run the same input once more
+            return bounded_real_solvers(w, dict(cfg, _retried=True))
         w.note(outcome=f'{type(e).__name__}: {e}'[:120])
         w.assume(False)
         return
